@@ -147,7 +147,8 @@ contract(
             "len(encoded_stream) % 16 == 0", "weight_range_index >= 0", "npu_tensor.g_slice_start <= len(encoded_stream)",
             "0 <= npu_tensor.g_prev_end <= len(encoded_stream)",
         ], modifies_fields=["g_prev_end", "encoded_ranges", "map$Obj_WeightRange_", "offset", "scale_bytes", "weight_offset", "weight_bytes", "index"],
-            havoc_types={"encoded_stream": TList(PyInt)}),
+            # weight_range: bound by the loop body (arbitrary if the code reads it after the loop)
+            havoc_types={"encoded_stream": TList(PyInt), "weight_range": WR}),
         2: dict(invariants=["len(scale_stream) == 10 * _it2"], havoc_types={"scale_stream": TList(PyInt)}),
     },
     hints={
